@@ -57,6 +57,11 @@ def setup(P):
     _st['Src'], _st['Tgt'], _st['EmptyTgt'] = Src, Tgt, EmptyTgt
 
 
+def case_reset(idx):
+    # tokens are a function of the case index, so that a single case replays exactly as it ran inside its shard
+    _n[0] = idx * 37
+
+
 def fresh():
     _n[0] += 1
     return float(_n[0] % 90) + 0.25
@@ -278,7 +283,16 @@ def run_case(idx, rng, P, rep):
                 cause = any((si, pn) in m for m in murky) or any(
                     (si, pn) in deps and not valid_for(tp_, safe(ev_))
                     for lk in links for tp_, (ev_, _k, deps) in lk.items())
-                if not cause:
+                interrupted = any((si, pn) in deps and (deps & (raised_last - {(si, pn)}))
+                                  for lk in links for (_ev, _k, deps) in lk.values())
+                if not cause and interrupted:
+                    # a link fed by this source is also fed by a source parameter whose latest assignment raised out of the
+                    # setter: the dispatch of that assignment was cut short, so the reference (e.g. a reactive expression that
+                    # remembers the error of its last evaluation) never learned about the new value -- the known mechanism
+                    viol('linked-value-stale/source-update-raised-for-another-link',
+                         f'source-update: source{si}.{pn} = {v!r} raised {type(e).__name__}: {e} from a reference that was left stale when '
+                         f'an earlier source assignment raised ValueError on behalf of another linked parameter')
+                elif not cause:
                     viol('source-update-raised-without-cause', f'source{si}.{pn} = {v!r} raised {type(e).__name__}: {e} although every reference '
                          f'fed by it evaluates to a value that is valid for its linked parameter')
             if flags['pending']:
